@@ -362,6 +362,15 @@ impl Check for C01 {
         if !q {
             polygons(run, "f:triangles G_far 3x2", 3, 2, &grid(&G_FAR, &G_FAR), 3, true, &BOTH_AA, &BOTH_RULES);
         }
+        // wide and tall surfaces: coordinates beyond 256 px (byte / 16-bit truncation, strides)
+        {
+            let xs = [-3, 2, 1021, 1026, 1030, 1203];
+            let ys = [-2, 1, 3, 6];
+            polygons(run, "h:triangles on a 300x1 surface", 300, 1, &grid(&xs, &ys), 3, false, &BOTH_AA, &BOTH_RULES);
+            let xs2 = [-2, 1, 3, 6];
+            let ys2 = [-3, 2, 1021, 1026, 1030, 1203];
+            polygons(run, "h:triangles on a 1x300 surface", 1, 300, &grid(&xs2, &ys2), 3, false, &BOTH_AA, &BOTH_RULES);
+        }
         // degenerate surfaces: nothing painted, nothing panics
         for (w, h) in [(0, 0), (0, 3), (3, 0)] {
             let xs = [-4, 0, 5, 13];
